@@ -38,6 +38,12 @@ static int xattr_find_position(struct ext2_xattr *attrs, int count, const char *
 	 (x)->value_len == OLD((x)->value_len) && (x)->ea_ino == OLD((x)->ea_ino) && (x)->name_index == OLD((x)->name_index))
 static errcode_t xattr_update_entry(ext2_filsys fs, struct ext2_xattr *x, const char *name, const char *short_name,
 				    int index, const void *value, size_t value_len, int in_inode)
+#ifndef XAT_LIGHT_UPDATE_ENTRY
+	/* the copies are new heap objects (stated first: when the contract REPLACES a call, is_fresh is what gives the
+	 * pointers their values, and the clauses below refer to them) */
+	ENSURES(RET != 0 || FRESH(x->value, value_len))
+	ENSURES(RET != 0 || OLD(x->name) != 0 || FRESH(x->name, XSPEC_STRLEN(name) + 1))
+#endif
 	ENSURES(RET == 0 || XAT_SLOT_SAME(x))
 	ENSURES(RET != EXT2_ET_EA_NO_SPACE)	/* the only origin of that code in the tree is xattr_array_update itself */
 	ENSURES(RET >= 0 && RET <= 0x7fffffffL)	/* error codes are errno values or 32-bit com_err codes; the caller keeps them in an int */
@@ -51,10 +57,7 @@ static errcode_t xattr_update_entry(ext2_filsys fs, struct ext2_xattr *x, const 
 	 * (no statement about the copied bytes, the release of the old value buffer is not modelled) */
 	ASSIGNS(*x, verif_g2, xat_mon);
 #else
-	/* the copies are new heap objects ... */
-	ENSURES(RET != 0 || FRESH(x->value, value_len))
-	ENSURES(RET != 0 || OLD(x->name) != 0 || FRESH(x->name, XSPEC_STRLEN(name) + 1))
-	/* ... holding the caller's bytes (at the ghost byte index) */
+	/* the copies hold the caller's bytes (at the ghost byte index) */
 	ENSURES(RET != 0 || !(xat_bk < value_len) || ((const unsigned char *)x->value)[xat_bk] == ((const unsigned char *)value)[xat_bk])
 	ENSURES(RET != 0 || OLD(x->name) != 0 || !(xat_bk <= XSPEC_STRLEN(name)) ||
 		((const unsigned char *)x->name)[xat_bk] == ((const unsigned char *)name)[xat_bk])
